@@ -644,6 +644,16 @@ func c02Exec(in []string) []string {
 					header.Set("Authorization", "Bearer "+oc)
 				} else {
 					query.Set("access_token", oc)
+					// the token in the query next to an Authorization header of a scheme no
+					// authenticator of this API reads: the fallback to the parameter still applies
+					switch (rsum / 5) % 4 {
+					case 1:
+						header.Set("Authorization", "Basic Zm9vOmJhcg==")
+					case 2:
+						header.Set("Authorization", "Digest username=\"u\"")
+					case 3:
+						header.Set("Authorization", "Bearer")
+					}
 				}
 			case c02ViaBasic, c02ViaBasicCtx, c02ViaBasicRealm:
 				rr := &http.Request{Header: header}
